@@ -29,11 +29,13 @@ def flag_of(e):
     return None
 
 
-def run(prog, rep):
+def _control_flow(prog, rep):
+    """R1-R4: main's own control flow, on the body as written (a `?` inside an extracted helper is a failure edge of the
+    helper; in main it is the `?` on the helper's result)"""
     f = prog.fns.get("cli::main")
     if f is None or f.body is None:
         rep.violation("C19", "anchor-lost:cli::main", "", "the CLI entry point was not analysed (is the binary built with --features cli?)")
-        return
+        return False
     body, tr = f.body, Tracer(f.body)
     def calls(pat):
         return [(b, t) for b, t in body.calls() if is_callee(t, pat)]
@@ -45,12 +47,20 @@ def run(prog, rep):
     rep.check(len(dj) == 1 and len(pr) == 1 and len(fs_) == 1 and len(ex) == 1, "C19.R1", "main :: anchors", f.loc(), "one from_str, one execute, one display_json, one pretty print",
               "main has %d from_str, %d execute, %d display_json, %d pretty print calls" % (len(fs_), len(ex), len(dj), len(pr)))
     if not (len(dj) == 1 and len(pr) == 1 and len(fs_) == 1 and len(ex) == 1):
-        return
+        return False
     outs = {"display_json": dj[0][0], "pretty_print": pr[0][0]}
     for name, ob in outs.items():
         gs = dominating_guards(body, tr, ob)
-        ok_fs = any(g.variant == "Ok" and strip(g.cond)[0] == "call" and strip(g.cond)[4] == fs_[0][0] for g in gs)
-        ok_ex = any(g.variant == "Ok" and strip(g.cond)[0] == "call" and strip(g.cond)[4] == ex[0][0] for g in gs)
+        def succeeded(g, call_block):
+            """the guard says: the Result produced at call_block (possibly through map_err/with_context/`?`) is Ok"""
+            if g.variant not in ("Ok", "Continue"):
+                return False
+            e = strip(g.cond)
+            while e[0] == "call" and e[4] != call_block and e[3] and re.search(r"Try::branch$|Result::<T, E>::map_err$|::with_context$|::context$", e[1] or ""):
+                e = strip(e[3][0])
+            return e[0] == "call" and e[4] == call_block
+        ok_fs = any(succeeded(g, fs_[0][0]) for g in gs)
+        ok_ex = any(succeeded(g, ex[0][0]) for g in gs)
         rep.check(ok_fs and ok_ex, "C19.R1", "main :: %s after successful load and execution" % name, sp_str(body.term(ob)["sp"]), "dominated by Ok(from_str) and Ok(execute)",
                   "%s can run although loading or execution failed (from_str Ok: %s, execute Ok: %s)" % (name, ok_fs, ok_ex))
         # the graph printed is the one execute returned
@@ -145,6 +155,19 @@ def run(prog, rep):
                 ok4 = ok4 and not (r & okret)
         ok4 = ok4 and body.dominates(jsw[0], min(okret)) if okret else False
     rep.check(ok4, "C19.R4", "main :: output before Ok(())", "", "json → display_json, else (unless quiet) → print, then Ok(())", "a successful run can return Ok(()) without having produced the selected output")
+    return True
+
+
+def run(prog, rep):
+    with prog.raw():
+        if not _control_flow(prog, rep):
+            return
+    f = prog.fns.get("cli::main")
+    body, tr = f.body, Tracer(f.body)
+    def calls(pat):
+        return [(b, t) for b, t in body.calls() if is_callee(t, pat)]
+    dj = calls(r"graph::Graph::<'tree>::display_json$")
+    ex = calls(r"<impl tsg::ast::File>::execute$")
     # R5 data flow of the options
     rep.rule("C19.R5", "--lazy → ExecutionConfig::lazy only; --output → display_json only; --global k=v → Value::String(v); functions = stdlib; execute(tree, source, config)")
     lz = calls(r"execution::ExecutionConfig::<'a, 'g>::lazy$")
@@ -155,7 +178,8 @@ def run(prog, rep):
                (flag_of(tr.operand(body.term(b)["discr"])) == "lazy" or (strip(tr.operand(body.term(b)["discr"]))[0] != "call" and any(x[0] == "call" and flag_of(x) == "lazy" for x in walk(tr.operand(body.term(b)["discr"])))))]
     rep.check(not lazy_sw, "C19.R5", "main :: --lazy not branched on", "", "the mode flag only selects the library's mode", "main branches on --lazy itself")
     ea = [canon_full(tr.operand(a)) for a in ex[0][1]["args"]]
-    oke = "parser::from_str(" in ea[0] and ea[1].startswith("&(Try::branch(Option::ok_or_else(Parser::parse(") and "fs::read" in ea[2] and "ExecutionConfig::lazy(" in ea[3] and "NoCancellation" in ea[4]
+    oke = "parser::from_str(" in ea[0] and (ea[1].startswith("&(Try::branch(Option::ok_or_else(Parser::parse(") or ea[1].startswith("&(Parser::parse(")) and ") as Some).0" in ea[1] + ") as Some).0" * ea[1].startswith("&(Try::branch(") \
+        and "fs::read" in ea[2] and "ExecutionConfig::lazy(" in ea[3] and "NoCancellation" in ea[4]
     def utf8_calls(e):
         return {x[4] for x in walk(e) if x[0] == "call" and re.search(r"String::from_utf8$", x[1] or "")}
     tree_src = utf8_calls(tr.operand(ex[0][1]["args"][1]))
@@ -174,7 +198,7 @@ def run(prog, rep):
         okg = re.search(r"str::split_once\(.*, '='\)", k) is not None and k.endswith(".0)") and re.match(r"^graph::Value::String\{ToString::to_string\(&\*\(Try::branch\(Context::with_context\(str::split_once\(.*, '='\), .*\)\) as Continue\)\.0\.1\)\}$", v) is not None \
             and "get_many" in k and '"global"' in k
         cons = e2.consume(body, e2.Uses(body), tr, ga[0][1]["dest"]["l"])
-        okg = okg and all(c.kind == "TRY" for c in cons)
+        okg = okg and all(c.kind == "TRY" or (c.kind == "MATCH-ERR" and c.detail.startswith("SAME-ERROR")) for c in cons if c.kind != "NOISE")
     rep.check(okg, "C19.R5", "main :: --global", "", "globals.add(Identifier::from(k), Value::String(v.to_string()))? for k=v split at the first `=`", "--global handling changed")
     # E2.d
     # ---- A: option declarations (what clap is told) agree with how main reads them
